@@ -35,6 +35,8 @@ var ByteAlphabets = map[string][]string{
 	"lex":  {"a", "5", " ", "\t", "\"", "'", "/", "\\", "-", ":", "(", "*", ".", "!", "é", "\xff", "٣"},
 	"utf8": {"a", "\x00", "\x80", "\xc3", "\xa9", "\xe4", "\xb8", "\xad", "\xf0"},
 	"kw":   {"a", "n", "d", "o", "r", "t", "A", "N", "D", " ", ":"},
+	// every ASCII punctuation character that is not part of the query syntax (each must stay illegal)
+	"punct": {"a", ":", " ", "#", "$", "%", "&", ",", ";", "@", "|", "`", "!"},
 	"nl":   {"a", " ", "\r", "\n", "\"", "/", "\\", ":"},
 	// escape sequences of bare words next to the characters they protect
 	"esc": {"x", `\\`, `\*`, `\?`, "*", "?", `\/`, "/", `\ `, `\"`},
